@@ -20,7 +20,7 @@ ASSUMPTIONS = [
 ]
 EXHAUSTIVE_WHEN_PARTS = True
 
-FORMS = ["numeric", "backward_label", "forward_label", "backward_label_expr", "backward_label_macro", "numeric_bank0"]
+FORMS = ["numeric", "backward_label", "forward_label", "backward_label_expr", "backward_label_macro", "numeric_bank0", "backward_label_after_incbin", "symbol_target_assigned_later", "qualified_target"]
 RELOCS = ["none", "reloc_rom", "reloc_rom_near", "reloc_ram", "org_ram", "reloc_ram_near_storage", "resume_after_reloc", "resume_after_reloc_gap"]
 
 
@@ -139,6 +139,27 @@ def build(rom: str, m: str, d: int, place: int, form: str, reloc: str):
             return None
         src = head + f".macro cdown(loop, exit) {{\n{m} exit\n}}\n" + "loop:\n" + filler(n) + "retry:\ncdown(retry, loop)\n"
         return src, adv(rom, run, n), run, adv(rom, stored, n)
+    if form == "backward_label_after_incbin":
+        # a binary file stands between the target and the branch (same block): it counts like any other bytes
+        n = -d - 2
+        if n < 1:
+            return None
+        src = head + "tgt:\n.incbin 'fill.bin'\n" + f"{m} tgt\n"
+        return src, adv(rom, run, n), run, adv(rom, stored, n), {"fill.bin": bytes([0xEA]) * n}
+    if form == "symbol_target_assigned_later":
+        # the target is an `=` symbol that is assigned further down
+        n = -d - 2
+        if n < 0:
+            return None
+        src = head + "tgt:\n" + filler(n) + f"{m} tgt_sym\nnop\ntgt_sym = tgt\n"
+        return src, adv(rom, run, n), run, adv(rom, stored, n)
+    if form == "qualified_target":
+        # two parents hold a scope of the same name; the branch inside the first names its own scope's label by its qualified name
+        n = -d - 2
+        if n < 0:
+            return None
+        src = head + ".scope player {\n.scope update {\nskip:\n" + filler(n) + "}\n" + f"{m} update.skip\n}}\n.scope enemy {{\n.scope update {{\nnop\nnop\nskip:\nnop\n}}\nbra update.skip\n}}\n"
+        return src, adv(rom, run, n), run, adv(rom, stored, n)
     if form == "backward_label":
         n = -d - 2
         if n < 0:
@@ -161,7 +182,8 @@ def judge(res: Res, rom: str, m: str, d: int, place: int, form: str, reloc: str)
     b = build(rom, m, d, place, form, reloc)
     if b is None:
         return
-    src, run, target, stored = b
+    files = b[4] if len(b) > 4 else None
+    src, run, target, stored = b[:4]
     wit = {"rom": rom, "m": m, "d": d, "place": place, "form": form, "reloc": reloc, "src": src}
     res.evals += 1
     if run is None or target is None:
@@ -170,7 +192,7 @@ def judge(res: Res, rom: str, m: str, d: int, place: int, form: str, reloc: str)
     cfg = rm.config_for(rom)
     r_run, r_tgt = rm.find(cfg, run), rm.find(cfg, target)
     ram_involved = (r_run is not None and r_run["ram"]) or (r_tgt is not None and r_tgt["ram"])
-    r = assemble(src, rom=rom)
+    r = assemble(src, rom=rom, files=files)
     if ram_involved:
         res.distinct_count += 1
         res.count("judged_ram")
